@@ -25,6 +25,8 @@
 // C03_delegate_sound_ext: every use of its bits.SliceReader parameter is
 //   - the receiver of a call of one of the position-relative methods
 //     ReadUint8 ReadUint16 ReadInt16 ReadUint24 ReadUint32 ReadInt32 ReadUint64 ReadInt64 ReadBytes AccError            (any argument)
+//     GetPos                   only as `v := sr.GetPos()` with v a local int that is used in nothing but differences of two positions,
+//                              or directly as an operand of such a difference (`sr.GetPos() - initPos`: XRelPos of the theorem)
 //     ReadFixedLengthString                                                                                              (any int argument)
 //     SkipBytes                (argument provably in [0, 2^62): a constant, or built from len(..), conversions of unsigned 8/16/32-bit
 //                               values, and + * / % >> & of such)
@@ -1181,6 +1183,143 @@ func sfBits(info *types.Info, e ast.Expr) int {
 	return 64
 }
 
+// ---- positions relative to each other: `initPos := sr.GetPos()` ... `sr.GetPos() - initPos`
+// sfIsGetPos: e is a call X.GetPos() on a bits.SliceReader
+func sfIsGetPos(info *types.Info, e ast.Expr) bool {
+	for {
+		p, ok := e.(*ast.ParenExpr)
+		if !ok {
+			break
+		}
+		e = p.X
+	}
+	c, ok := e.(*ast.CallExpr)
+	if !ok || len(c.Args) != 0 {
+		return false
+	}
+	se, ok := c.Fun.(*ast.SelectorExpr)
+	if !ok || se.Sel.Name != "GetPos" {
+		return false
+	}
+	tv, ok := info.Types[se.X]
+	return ok && sfIsSliceReader(tv.Type)
+}
+
+// sfPosVar: v is a local int variable that only ever holds reader positions and is only used in differences of positions:
+// every assignment to it is `v := X.GetPos()` / `v = X.GetPos()`, every other use is an operand of a binary `-` whose other
+// operand is X.GetPos() or another such variable.
+var sfPosBusy = map[*types.Var]bool{} // variables under examination: assumed fine (greatest fixpoint over mutual differences)
+
+func sfPosVar(info *types.Info, fd *ast.FuncDecl, v *types.Var, depth int) bool {
+	if v == nil || v.IsField() || !sfLocal(v) || fd == nil || fd.Body == nil || depth > 8 {
+		return false
+	}
+	if sfPosBusy[v] {
+		return true
+	}
+	sfPosBusy[v] = true
+	defer delete(sfPosBusy, v)
+	if b, ok := v.Type().Underlying().(*types.Basic); !ok || b.Kind() != types.Int {
+		return false
+	}
+	ok, assigned := true, 0
+	var stack []ast.Node
+	ast.Inspect(fd.Body, func(n ast.Node) bool {
+		if n == nil {
+			stack = stack[:len(stack)-1]
+			return true
+		}
+		stack = append(stack, n)
+		id, isId := n.(*ast.Ident)
+		if !isId || (info.Uses[id] != v && info.Defs[id] != v) {
+			return true
+		}
+		if len(stack) < 2 {
+			ok = false
+			return true
+		}
+		switch par := stack[len(stack)-2].(type) {
+		case *ast.AssignStmt:
+			if (par.Tok == token.ASSIGN || par.Tok == token.DEFINE) && len(par.Lhs) == 1 && len(par.Rhs) == 1 && par.Lhs[0] == ast.Expr(id) && sfIsGetPos(info, par.Rhs[0]) {
+				assigned++
+				return true
+			}
+		case *ast.BinaryExpr:
+			if par.Op == token.SUB {
+				other := par.X
+				if other == ast.Expr(id) {
+					other = par.Y
+				}
+				if sfIsGetPos(info, other) {
+					return true
+				}
+				if oid := sfIdent(other); oid != nil {
+					if ov, isVar := info.Uses[oid].(*types.Var); isVar && ov != v && sfPosVar(info, fd, ov, depth+1) {
+						return true
+					}
+				}
+			}
+		}
+		ok = false
+		return true
+	})
+	return ok && assigned > 0
+}
+
+// sfIsPosDiff: e is a difference of two positions
+func sfIsPosDiff(info *types.Info, fd *ast.FuncDecl, e ast.Expr) bool {
+	b, ok := e.(*ast.BinaryExpr)
+	if !ok || b.Op != token.SUB {
+		return false
+	}
+	isPos := func(x ast.Expr) bool {
+		if sfIsGetPos(info, x) {
+			return true
+		}
+		if id := sfIdent(x); id != nil {
+			if v, ok := info.Uses[id].(*types.Var); ok {
+				return sfPosVar(info, fd, v, 0)
+			}
+		}
+		return false
+	}
+	return isPos(b.X) && isPos(b.Y)
+}
+
+// sfPosUse: the call sr.GetPos() (top of the stack: ident, selector, call) is used position-relatively; "" or the reason
+func sfPosUse(info *types.Info, fd *ast.FuncDecl, stack []ast.Node, call *ast.CallExpr) string {
+	// stack: ... parent, call, selector, ident
+	if len(stack) < 4 {
+		return "position-dependent method sr.GetPos"
+	}
+	i := len(stack) - 4
+	for i > 0 {
+		if _, ok := stack[i].(*ast.ParenExpr); !ok {
+			break
+		}
+		i--
+	}
+	switch par := stack[i].(type) {
+	case *ast.AssignStmt:
+		if (par.Tok == token.ASSIGN || par.Tok == token.DEFINE) && len(par.Lhs) == 1 && len(par.Rhs) == 1 {
+			if id := sfIdent(par.Lhs[0]); id != nil {
+				v, _ := info.Defs[id].(*types.Var)
+				if v == nil {
+					v, _ = info.Uses[id].(*types.Var)
+				}
+				if sfPosVar(info, fd, v, 0) {
+					return ""
+				}
+			}
+		}
+	case *ast.BinaryExpr:
+		if sfIsPosDiff(info, fd, par) {
+			return ""
+		}
+	}
+	return "sr.GetPos() used other than in a difference of two reader positions"
+}
+
 // sfRange: exponents (lo, hi) such that -2^lo < e < 2^hi is certain for the int expression e, given that the body is shorter
 // than 2^61 bytes (hypothesis of C03_delegate_sound_ext), so that hdr.payloadLen() < 2^61; 99 = unknown.
 // Local variables are followed through ALL their assignments in the function (plain `=` / `:=` with one value per variable;
@@ -1233,6 +1372,9 @@ func sfRange(info *types.Info, fd *ast.FuncDecl, e ast.Expr, depth int) (lo, hi 
 		}
 		return unk, unk
 	case *ast.BinaryExpr:
+		if sfIsPosDiff(info, fd, x) {
+			return 61, 61 // both positions lie in a buffer shorter than 2^61 bytes
+		}
 		alo, ahi := sfRange(info, fd, x.X, depth)
 		blo, bhi := sfRange(info, fd, x.Y, depth)
 		if alo == unk || blo == unk {
@@ -1366,6 +1508,11 @@ func (r *sfRel) analyse(k sfParamKey) {
 			r.methods[k][m] = true
 			switch {
 			case sfLocalAny[m]:
+			case m == "GetPos":
+				// only as `v := sr.GetPos()` / `v = sr.GetPos()` or as an operand of a difference of two positions
+				if why := sfPosUse(info, fd, stack, call); why != "" {
+					setBad(id.Pos(), why)
+				}
 			case m == "ReadFixedLengthString": // any int count: an error-free read stayed inside the body
 			case m == "SkipBytes":
 				if len(call.Args) != 1 || !sfNonNegBounded(info, call.Args[0]) {
